@@ -829,6 +829,11 @@ class PerceptionAnalyzerBase(ABC):
         target_labels: List[str] = self.target_labels.copy()
         if "unknown" not in target_labels:
             target_labels.append("unknown")
+        # paired rows may carry a label outside the evaluation targets (e.g. a `false_positive` ground truth matched
+        # under a pass/fail threshold): give it a row and a column instead of raising ValueError from `index()`
+        for label in pd.concat([gt_df["label"], est_df["label"]]).unique():
+            if label not in target_labels:
+                target_labels.append(label)
 
         gt_indices: np.ndarray = gt_df["label"].apply(lambda label: target_labels.index(label)).to_numpy()
         est_indices: np.ndarray = est_df["label"].apply(lambda label: target_labels.index(label)).to_numpy()
